@@ -142,10 +142,11 @@ def run(ctx: Ctx) -> None:
     ctx.sample({"write": "IL", "read": "I", "python": fmt(list(py_tab[("IL", "I")].bits[:32]), 16), "rust": fmt(list(rs_tab[("IL", "I")].bits[:32]), 16)})
     ctx.sample({"write": "FZ", "read": "F", "python": fmt(list(py_tab[("FZ", "F")].bits[:32]), 8), "rust": fmt(list(rs_tab[("FZ", "F")].bits[:32]), 8)})
     ctx.sample({"write": "X", "read": "X", "python": fmt(list(py_tab[("X", "X")].bits[:32]), 24), "rust": fmt(list(rs_tab[("X", "X")].bits[:32]), 24)})
-    ctx.instance("C08.3/rust-invariant", "F/FC/FZ mirror invariant re-established by each of the 14 writes", inv_ok, 14)
+    ctx.instance("C08.3/rust-invariant", "F/FC/FZ mirror invariant re-established by each of the 14 writes", len(names), 14, discharged=inv_ok)
     temps(ctx, py, rs)
     snapshot_masks(ctx, py, rs)
     stepper_pairing(ctx, py)
+    flag_api_and_snapshot_masks(ctx, py)
     ctx.extra["exhaustive"] = True
 
 
@@ -317,3 +318,55 @@ def stepper_pairing(ctx: Ctx, py: PyProgram) -> None:
                           f"the snapshot captures {reg} into `{fieldname}` but apply_to {'writes `' + got + '`' if got else 'never writes ' + reg + ' back as a whole (e.g. only through set_flag)'}: "
                           f"a snapshot applied to a fresh register file does not reproduce every readable value of {reg}", f"{rel}:{app.lineno}")
     ctx.instance("C08.4/snapshot-apply", "registers captured by CPURegistersSnapshot.from_registers and written back whole by apply_to", n, 8)
+
+
+def flag_api_and_snapshot_masks(ctx: Ctx, py: PyProgram) -> None:
+    """(a) set_flag/get_flag are the register accessors under another name: the value goes to Registers.set unmodified (truncation to the
+    flag's single bit happens there, like the Rust write_flag), get_flag returns Registers.get; (b) no mask applied to a snapshot field
+    anywhere in CPURegistersSnapshot is narrower than the register it holds."""
+    n = 0
+    for q, callee in (("Registers.set_flag", "self.set"), ("Registers.get_flag", "self.get")):
+        fn = py.func(isa.EMU_PY, q)
+        calls = [c for c in ast.walk(fn) if isinstance(c, ast.Call) and unparse(c.func) == callee]
+        n += 1
+        if len(calls) != 1:
+            ctx.violation("C08.1/flag-api", f"{isa.EMU_PY}::{q}::delegation", f"{q} does not delegate to {callee}(reg, ..) exactly once", f"{isa.EMU_PY}:{fn.lineno}")
+            continue
+        if q.endswith("set_flag"):
+            arg = calls[0].args[1] if len(calls[0].args) > 1 else None
+            if arg is None or unparse(arg) != "value":
+                ctx.violation("C08.1/flag-api", f"{isa.EMU_PY}::{q}::value rewritten", f"set_flag passes `{unparse(arg) if arg is not None else '?'}` to Registers.set instead of the value itself: writing a flag by name and by register differ "
+                              "(e.g. value 2: by register -> bit 0 = 0 as in the Rust core, by name -> 1)", f"{isa.EMU_PY}:{fn.lineno}")
+    ctx.instance("C08.1/flag-api", "set_flag / get_flag delegate to Registers.set / get with the value unchanged", n, 2)
+    # (b)
+    rel = "sc62015/pysc62015/stepper.py"
+    mod = py.module(rel)
+    cls = py.need_cls(mod, "CPURegistersSnapshot")
+    sizes = {k.name: v for k, v in py.value(isa.EMU_PY, "REGISTER_SIZE").items()}
+    arch_bits = {"pc": 20, "x": 20, "y": 20, "u": 20, "s": 20, "ba": 16, "i": 16, "f": 8, "temps": 8 * sizes.get("TEMP0", 3)}
+    k = 0
+    for name, fn in cls.methods.items():
+        for b in ast.walk(fn):
+            if not (isinstance(b, ast.BinOp) and isinstance(b.op, ast.BitAnd)):
+                continue
+            try:
+                m = PyEval(py, mod).eval(b.right)
+            except NotConst:
+                continue
+            if not isinstance(m, int) or isinstance(m, bool):
+                continue
+            txt = unparse(b.left)
+            fields = [f for f in arch_bits if f"self.{f}" in txt or (f == "temps" and ("temps" in unparse(fn) and txt in ("value",) and "temps" in _enclosing_text(fn, b)))]
+            for f in fields:
+                k += 1
+                if m.bit_length() < arch_bits[f] and m != 1 and m != 2:
+                    ctx.violation("C08.4/snapshot-mask", f"{rel}::CPURegistersSnapshot.{name}::{f} masked to {m.bit_length()} bits",
+                                  f"CPURegistersSnapshot.{name} masks `{txt}` with {m:#x} ({m.bit_length()} bits) but {f} holds {arch_bits[f]}-bit values: snapshot + apply loses bits {m.bit_length()}..{arch_bits[f] - 1}", f"{rel}:{b.lineno}")
+    ctx.instance("C08.4/snapshot-field-masks", "constant masks applied to snapshot fields inside CPURegistersSnapshot", k, 0)
+
+
+def _enclosing_text(fn: ast.FunctionDef, node: ast.AST) -> str:
+    for st in ast.walk(fn):
+        if isinstance(st, (ast.Assign, ast.AugAssign, ast.For, ast.DictComp)) and any(x is node for x in ast.walk(st)):
+            return unparse(st)
+    return ""
